@@ -168,7 +168,15 @@ fn build_direct(src: &mut Src, sig: &'static Sig) -> (Direct, Vec<crate::refast:
                 }
                 _ => gen_value_of(src, t),
             },
-            ("to_number", 0) => match src.below(4) {
+            ("to_number", 0) => match src.below(5) {
+                4 => {
+                    // number-like strings assembled from (possibly malformed) parts
+                    let sign = *src.pick(&["", "-", "-", "+", "--"]);
+                    let int = *src.pick(&["0", "00", "007", "1", "12", "9007199254740993", "", "10", "05"]);
+                    let frac = *src.pick(&["", "", ".", ".5", ".50", ".e", ".0"]);
+                    let exp = *src.pick(&["", "", "e2", "E+2", "e-2", "e", "e+", "E02", "e308", "e-400"]);
+                    J::Str(format!("{}{}{}{}", sign, int, frac, exp))
+                }
                 0 => J::Str(
                     src.pick(&["1", "-1", "1.5", "1e2", "1E+2", "-0", "0.0", "true", "null", "[1]", "{\"a\":1}", "\"1\"", "01", "1.", ".5", "+1", "0x10", "", "abc", "1e", "NaN", "Infinity", "-", "1 2", "1,2"]).to_string(),
                 ),
@@ -392,6 +400,111 @@ fn counting(src: &mut Src, st: &mut Stats, _env: &Env) -> CaseResult {
     Ok(())
 }
 
+/// Core expressions over heterogeneous documents (nulls, mixed arrays) in which
+/// sub-expressions are wrapped in *total* built-ins (type, not_null, to_array,
+/// to_string of strings): functions meet nulls and non-uniform data inside
+/// pipes, projections and filters.
+fn mixed(src: &mut Src, st: &mut Stats, _env: &Env) -> CaseResult {
+    use crate::gen_doc::{gen_doc, DocOpts};
+    use crate::gen_expr::{gen_expr, ExprOpts};
+    use crate::refast::RefExpr as R;
+    let doc = gen_doc(src, &DocOpts::default());
+    let o = ExprOpts { max_depth: 4, step_zero: false, extremes: false, ..ExprOpts::default() };
+    let tree = gen_expr(src, 0, Some(&doc), &o);
+    // wrap some sub-expressions / projection right-hand sides in total functions
+    fn wrap(e: R, src: &mut Src, budget: &mut usize) -> R {
+        let e = match e {
+            R::Proj { kind, subject, rhs } => {
+                let rhs = if *budget > 0 && src.chance(110) {
+                    *budget -= 1;
+                    // applied to each element: `.type(@)`-like steps are expressed as a call on the current element
+                    let f = *src.pick(&["type", "not_null", "to_array"]);
+                    let inner = wrap(*rhs, src, budget);
+                    let arg = inner;
+                    match f {
+                        "not_null" => R::Call("not_null".into(), vec![arg, R::Literal(J::s("dflt"))]),
+                        other => R::Call(other.into(), vec![arg]),
+                    }
+                } else {
+                    wrap(*rhs, src, budget)
+                };
+                R::Proj { kind, subject: subject.map(|s| Box::new(wrap(*s, src, budget))), rhs: Box::new(rhs) }
+            }
+            R::Pipe(l, r) => R::Pipe(Box::new(wrap(*l, src, budget)), Box::new(wrap(*r, src, budget))),
+            R::Or(l, r) => R::Or(Box::new(wrap(*l, src, budget)), Box::new(wrap(*r, src, budget))),
+            R::And(l, r) => R::And(Box::new(wrap(*l, src, budget)), Box::new(wrap(*r, src, budget))),
+            R::Not(x) => R::Not(Box::new(wrap(*x, src, budget))),
+            R::MultiList(es) => R::MultiList(es.into_iter().map(|x| wrap(x, src, budget)).collect()),
+            other => other,
+        };
+        if *budget > 0 && src.chance(40) {
+            *budget -= 1;
+            match src.below(3) {
+                0 => R::Call("type".into(), vec![e]),
+                1 => R::Call("not_null".into(), vec![e, R::Literal(J::Null), R::Literal(J::int(0))]),
+                _ => R::Call("to_array".into(), vec![e]),
+            }
+        } else {
+            e
+        }
+    }
+    let mut budget = 4;
+    let tree = wrap(tree, src, &mut budget);
+    let (text, _, _) = match spell_tree(&tree, src, st) {
+        Some(x) => x,
+        None => {
+            st.discard();
+            return Ok(());
+        }
+    };
+    st.eval();
+    let dt = doc.to_json();
+    let mut cx = refeval::Ctx::default();
+    let want = refeval::eval(&tree, &doc, &mut cx);
+    let c = compare("mixed", &tree, &text, &doc, &dt, st, true)?;
+    if want.is_ok() {
+        fn_classes(&cx, st);
+    }
+    if c.nontrivial && !cx.calls.is_empty() && st.nontrivial(&format!("{}\u{0}{}", text, dt)) {
+        st.sample(|| json!({"expression": text, "document": dt}));
+    }
+    Ok(())
+}
+
+/// Call towers: a multi-argument call under 1..16 enclosing calls, with
+/// further calls in non-first argument positions at every level.
+fn call_towers(src: &mut Src, st: &mut Stats, _env: &Env) -> CaseResult {
+    let doc = schema_doc(src);
+    let depth = 1 + src.below(16);
+    let core = *src.pick(&[
+        "starts_with(s, to_string(s))",
+        "join(s, sort(strs))",
+        "contains(nums, abs(n))",
+        "merge(o, not_null(z, o2), on)",
+        "not_null(z, length(strs), n)",
+        "max_by(objs, &abs(n))",
+        "ends_with(to_string(n), to_string(n))",
+    ]);
+    let mut text = core.to_string();
+    for i in 0..depth {
+        text = match (i + src.below(3)) % 4 {
+            0 => format!("not_null(z, {})", text),
+            1 => format!("not_null({}, length(s))", text),
+            2 => format!("to_array({})[0]", text),
+            _ => format!("not_null(z, not_null(z, z), {}, to_string(n))", text),
+        };
+    }
+    let tree = crate::refparse::parse_strict(&text).map_err(|e| Failure::new("call-towers", "harness-ref", e.msg, json!({"expression": text})))?;
+    st.eval();
+    let dt = doc.to_json();
+    let c = compare("call-towers", &tree, &text, &doc, &dt, st, true)?;
+    st.class(if depth >= 8 { "call-tower:deep" } else { "call-tower:shallow" });
+    if c.nontrivial && st.nontrivial(&format!("{}\u{0}{}", text, dt)) {
+        st.sample(|| json!({"expression": text}));
+    }
+    Ok(())
+}
+
 /// Every compliance expression that uses a function x every compliance
 /// document and 40 schema documents (enumerated).
 fn cross(env: &Env, st: &mut Stats) -> Vec<Failure> {
@@ -483,6 +596,8 @@ pub fn property() -> Property {
             Sub::Custom(CustomSub { name: "cross", run: cross, replay: replay_cross }),
             Sub::Bytes(BytesSub { name: "direct", f: direct, max_len: 700, quick: Budget { threads: 8, cases: 6000 }, thorough: Budget { threads: 16, cases: 300_000 }, keep_unreproducible: false }),
             Sub::Bytes(BytesSub { name: "nested", f: nested, max_len: 2500, quick: Budget { threads: 8, cases: 3000 }, thorough: Budget { threads: 16, cases: 120_000 }, keep_unreproducible: false }),
+            Sub::Bytes(BytesSub { name: "mixed", f: mixed, max_len: 1500, quick: Budget { threads: 8, cases: 3000 }, thorough: Budget { threads: 16, cases: 120_000 }, keep_unreproducible: false }),
+            Sub::Bytes(BytesSub { name: "call-towers", f: call_towers, max_len: 2500, quick: Budget { threads: 4, cases: 1000 }, thorough: Budget { threads: 16, cases: 40_000 }, keep_unreproducible: false }),
             Sub::Bytes(BytesSub { name: "counting", f: counting, max_len: 500, quick: Budget { threads: 4, cases: 1500 }, thorough: Budget { threads: 16, cases: 50_000 }, keep_unreproducible: false }),
         ],
     }
